@@ -8,6 +8,7 @@ package qh
 
 import (
 	"context"
+	"encoding/json"
 	"fmt"
 	"os"
 	"path/filepath"
@@ -93,7 +94,13 @@ type queryJ struct {
 	Lo     int       `json:"lo"`
 	Hi     int       `json:"hi"`
 	Ivl    int       `json:"interval_s,omitempty"` // group by time(..), seconds; 0: none
+	Order  *orderJ   `json:"order,omitempty"`      // order by a selected plain sum/min/max field, with a limit
 	SQL    string    `json:"sql"`
+}
+type orderJ struct {
+	Item  int  `json:"item"`
+	Desc  bool `json:"desc"`
+	Limit int  `json:"limit"`
 }
 
 func tstr(slot int) string {
@@ -157,6 +164,14 @@ func (q *queryJ) render() {
 	if len(gs) > 0 {
 		s += " group by " + strings.Join(gs, ",")
 	}
+	if q.Order != nil {
+		s += " order by " + q.Items[q.Order.Item].text()
+		if q.Order.Desc {
+			s += " desc"
+		}
+		q.SQL = s + fmt.Sprintf(" limit %d", q.Order.Limit)
+		return
+	}
 	q.SQL = s + " limit 100"
 }
 
@@ -174,6 +189,7 @@ type obsJ struct {
 	Entries []entryJ `json:"entries"`
 	Order   []int    `json:"order"` // storage nodes in the order their answers were handed to the receiver
 	Dropped []string `json:"dropped,omitempty"`
+	Log     []string `json:"answers,omitempty"` // receiver<-sender, error text and payload size of every answer handed over
 }
 
 func indexOf(xs []string, v string) int {
@@ -220,6 +236,10 @@ func (c *cluster) run(q *queryJ) (obsJ, string) {
 		}
 	} else {
 		res := rs.(*commonmodels.ResultSet)
+		if os.Getenv("C12_RAW") != "" {
+			b, _ := json.Marshal(res)
+			fmt.Println("RAW", q.SQL, string(b))
+		}
 		names := map[string]int{}
 		for i, it := range q.Items {
 			names[it.text()] = i
@@ -284,6 +304,7 @@ func (c *cluster) run(q *queryJ) (obsJ, string) {
 		}
 	}
 	o.Dropped = c.dropped
+	o.Log = c.log
 	return o, ""
 }
 
@@ -513,6 +534,16 @@ func genQuery(r *vh.Rand, pts []point, dups, flushed bool) *queryJ {
 	if r.Chance(30) {
 		q.Ivl = []int{30, 60, 60, 120}[r.Intn(4)]
 	}
+	if len(q.Group) > 0 && r.Chance(20) {
+		// order by a selected plain field of an order-insensitive type, keep the best 1-3 groups
+		for i, it := range q.Items {
+			if it.Func == 0 && it.Field <= 2 {
+				// descending only: a group without data in the range ranks 0 and would win an ascending order
+				q.Order = &orderJ{Item: i, Desc: true, Limit: r.Range(1, 3)}
+				break
+			}
+		}
+	}
 	for _, it := range q.Items {
 		// last / first over several storage slots of one series is decided by the order of the physical sources
 		// (memory block, write window, files), C11's subject: such items keep the storage interval
@@ -704,6 +735,13 @@ func doWorld(out *vh.Out, root string, wi int, w *world, r *vh.Rand) {
 				"query": q, "plan": map[string]int64{"lo": lo, "hi": hi, "ratio": ratio},
 				"layout": lay, "routes": fmt.Sprint(res.routes), "reference": oref, "observed": o},
 				differs >= 2 && len(oref.Entries) > 0)
+			if q.Order != nil {
+				out.Count("order-by-limit")
+				top := fmt.Sprintf("(mkTop %d %s %d %d)", q.Order.Item, vh.Bool(q.Order.Desc), q.Items[q.Order.Item].Field+1, q.Order.Limit)
+				out.Check(idx, fmt.Sprintf("check_pair_top w%d_pts %s %s\n %s\n %s\n %s\n %s", wi, queryCoq(q, lo, hi, ratio), top,
+					descCoq(refLayout, ref.routes, oref.Order), descCoq(lay, res.routes, o.Order), obsCoq(oref), obsCoq(o)))
+				continue
+			}
 			out.Check(idx, fmt.Sprintf("check_pair w%d_pts %s\n %s\n %s\n %s\n %s", wi, queryCoq(q, lo, hi, ratio),
 				descCoq(refLayout, ref.routes, oref.Order), descCoq(lay, res.routes, o.Order), obsCoq(oref), obsCoq(o)))
 		}
@@ -727,6 +765,8 @@ func directed() []*world {
 			mk(queryJ{Metric: 0, Items: []itemJ{{0, 0}, {0, 3}, {0, 2}}, Group: []int{1}, Lo: 0, Hi: 40, Ivl: 60}),
 			mk(queryJ{Metric: 0, Items: []itemJ{{1, 0}, {1, 3}, {2, 2}, {2, 0}}, Group: []int{0}, Lo: 2, Hi: 33, Ivl: 30}),
 			mk(queryJ{Metric: 0, Items: []itemJ{{3, 0}, {4, 0}, {3, 1}}, Group: []int{0, 1}, Lo: 0, Hi: 40}),
+			mk(queryJ{Metric: 0, Items: []itemJ{{0, 0}, {2, 0}}, Group: []int{0}, Lo: 0, Hi: 40, Order: &orderJ{Item: 0, Desc: true, Limit: 2}}),
+			mk(queryJ{Metric: 0, Items: []itemJ{{1, 0}}, Group: []int{0, 1}, Lo: 0, Hi: 40, Order: &orderJ{Item: 0, Desc: true, Limit: 3}}),
 		},
 		Layouts: []layoutJ{
 			{NumShards: 4, Place: []int{0, 0, 0, 0}, Nodes: 1},
@@ -799,6 +839,6 @@ func MainC12() {
 	out.Notes = append(out.Notes,
 		"one engine per layout; every storage node owns a database of its own (metadata, index, shards) inside it and is shown to its leaf processor under the logical database name",
 		"real code on the path: broker shard iterator (routing), DataFamily.WriteRows, query.MetricDataSearch with RootMetricContext, physical plan and task-send stages, intermediate and leaf task processors, task managers, the leaf pipeline (metadata lookup, tag filtering, grouping, data load, down-sampling, reduce), TimeSeriesList encoding, root merge and expression evaluation; replaced: the gRPC streams (requests are handed to the processors, responses are collected and handed to the receiver's task manager in a picked order) and the state manager's Choose / GetDatabaseCfg",
-		"every statement carries limit 100 (the default of 20 groups picks groups in map order); order-by statements are not generated")
+		"statements without order-by carry limit 100 (the default of 20 groups picks groups in map order); order by <selected sum/min/max field> desc limit 1-3 (ascending is left out: groups without data in the range rank 0 and win) is generated for a fifth of the group-by statements and skipped by the check when two groups have equal ranks")
 	out.Finish()
 }
